@@ -1,4 +1,4 @@
-import GmqttVerif.Generated.Facts
+import GmqttVerif.Generated.Hooks
 import GmqttVerif.Proofs.Hooks
 import GmqttVerif.Proofs.BrokerHooks
 /-
